@@ -249,14 +249,14 @@ func (m *Model) DispenseInstantly(consumable string, quantity *traits.Consumable
 
 func updateStock(quantity *traits.Consumable_Quantity, src, dst *traits.Consumable_Stock) error {
 	if src.Used != nil {
-		delta, err := unitpb.Convert32(quantity.Amount, quantity.Unit, src.Used.Unit)
+		delta, err := unitpb.Convert32(quantity.GetAmount(), quantity.GetUnit(), src.Used.Unit) // (getters: a request may leave the quantity out)
 		if err != nil {
 			return err
 		}
 		dst.Used = &traits.Consumable_Quantity{Unit: src.Used.Unit, Amount: src.Used.Amount + delta}
 	}
 	if src.Remaining != nil {
-		delta, err := unitpb.Convert32(quantity.Amount, quantity.Unit, src.Remaining.Unit)
+		delta, err := unitpb.Convert32(quantity.GetAmount(), quantity.GetUnit(), src.Remaining.Unit)
 		if err != nil {
 			return err
 		}
